@@ -373,6 +373,8 @@ func scaleAll(w *numWriter) {
 	scaleOne[uintptr](w, "uintptr")
 }
 
+func durationOf(d int64) time.Duration { return time.Duration(d) }
+
 // ---- C17 --------------------------------------------------------------------------------------------
 var audioRates = []float64{8000, 11025, 16000, 22050, 32000, 44100, 48000, 88200, 96000, 176400, 192000, 352800, 384000, 705600, 768000, 2822400, 5644800}
 
